@@ -153,6 +153,20 @@ func c20readBack(rep *vh.Report, g *c20gen, img []byte, want []*c20entry, what s
 			rep.HarnessError(err.Error())
 			return
 		}
+		var kept []*tlog.Entry
+		defer func() {
+			// entries handed out earlier must still be what they were once the whole log has been read
+			for i, e := range kept {
+				if _, raw := frameMessage(e.Frame).(*message.MessageRaw); !raw {
+					continue
+				}
+				if ok, diff := specEqual(want[i].spec, fromFrame(e.Frame)); !ok {
+					rep.Violation("what="+what, fmt.Sprintf("entry %d changed (%s) after later entries were read from the same log", i, diff),
+						map[string]interface{}{"image_len": len(img), "entry_image": vh.Hex(want[i].image)})
+					return
+				}
+			}
+		}()
 		for i, w := range want {
 			e, err := rd.Read()
 			if err != nil {
@@ -160,6 +174,7 @@ func c20readBack(rep *vh.Report, g *c20gen, img []byte, want []*c20entry, what s
 					map[string]interface{}{"image_len": len(img), "entry_image": vh.Hex(w.image)})
 				return
 			}
+			kept = append(kept, e)
 			wt := time.UnixMicro(w.t.UnixMicro()).UTC()
 			if !e.Time.Equal(wt) || e.Time.Location() != time.UTC {
 				rep.Violation("what="+what, fmt.Sprintf("entry %d: time read back %v, written %v (to the microsecond, UTC)", i, e.Time, wt), vh.Hex(w.image))
